@@ -1730,3 +1730,214 @@ Proof.
   unfold extract_untyped_body. rewrite buffer_body_spec.
   destruct (_ <=? _); [discriminate|]. intros [= <-]. reflexivity.
 Qed.
+
+(* ---- C10, malformed JSON: the clause as the property states it, and why it
+   fails.  Two readings of "the body parses": [json_de], what body.rs calls (a
+   value off the FRONT of the buffer), and [json_strict], the whole buffer is
+   one JSON text of the type (RFC 8259 JSON-text = ws value ws). ---- *)
+Section JsonTrailing.
+  Variable V : Type.
+  Variable json_de : str -> option V.
+  Variable json_strict : str -> option V.
+
+  (* the clause in full: whatever is not a JSON text of the type is refused *)
+  Definition malformed_json_refused_full_statement : Prop :=
+    forall sp h cap frames body,
+      buffer_body cap frames = Ok body -> json_strict body = None ->
+      exists e, extract_typed_body json_de CtJson sp h cap frames = Err e.
+
+  (* what the code does instead: a buffer the front parser gets a value out of
+     is accepted - the handler is entered with that value - whether or not the
+     buffer as a whole is a JSON text *)
+  Theorem json_front_value_accepted sp h cap frames body v :
+    (h = HAbsent \/ exists ct, h = HVal ct /\ ct_spelling CT_JSON ct) ->
+    buffer_body cap frames = Ok body -> json_de body = Some v ->
+    handle (extract_typed_body json_de CtJson sp h cap frames) = HandlerEntered (TJson v).
+  Proof.
+    intros Hh Hb Hj. unfold extract_typed_body. rewrite Hb. cbn [bind].
+    assert (Hm : exists ct, content_type_str h = Ok ct /\ mime_type_of ct = CT_JSON).
+    { destruct Hh as [->|(ct & -> & Hs)].
+      - exists CT_JSON. split; reflexivity.
+      - exists ct. split; [eapply content_type_spelling, Hs|].
+        apply mime_type_of_spelling; [reflexivity|exact Hs]. }
+    destruct Hm as (ct & -> & Hmt). cbn [bind]. rewrite Hmt.
+    change (from_mime_type CT_JSON) with (Some CtJson). cbn iota. rewrite Hj. reflexivity.
+  Qed.
+
+  (* so any buffer on which the two readings differ refutes the clause *)
+  Theorem malformed_json_refused_refuted body v :
+    json_de body = Some v -> json_strict body = None ->
+    ~ malformed_json_refused_full_statement.
+  Proof.
+    intros Hd Hs Hfull.
+    destruct (Hfull [] HAbsent (total [body]) [body] body) as [e He].
+    - rewrite buffer_body_spec. rewrite N.leb_refl. cbn [concat]. rewrite app_nil_r. reflexivity.
+    - exact Hs.
+    - pose proof (json_front_value_accepted [] HAbsent (total [body]) [body] body v
+                    (or_introl eq_refl)) as H.
+      rewrite He in H. cbn [handle] in H.
+      assert (Hb : buffer_body (total [body]) [body] = Ok body).
+      { rewrite buffer_body_spec. rewrite N.leb_refl. cbn [concat]. rewrite app_nil_r. reflexivity. }
+      specialize (H Hb Hd). discriminate.
+  Qed.
+End JsonTrailing.
+
+(* ---- C09, the two open classes, as facts about the model ---- *)
+
+(* K-Q128: a u128 / i128 field of a query (or url-encoded body) is refused
+   whatever text is sent for it *)
+Theorem query_128_always_refused sp q k s t p :
+  wf_spec sp = true -> In (k, s) (form_parse q) -> assoc k sp = Some (KScalar t p) ->
+  is_128 t = true ->
+  exists e, extract_query sp (Some q) = Err e.
+Proof.
+  intros Hwf Hin Hsp H8.
+  destruct (extract_query_err_of sp q) as (e & He & _); [|eauto].
+  eapply refused_bad_value; [exact Hwf|exact Hin|exact Hsp|].
+  unfold urlenc_field, urlenc_scalar. rewrite H8. destruct p; reflexivity.
+Qed.
+
+(* the query clause without the 128-bit exclusion *)
+Definition q_typed_any (kind : fkind) (v : fval) : Prop :=
+  match kind, v with
+  | KScalar t POpt, FvOpt None => True
+  | KScalar t POpt, FvOpt (Some x) => sval_ok t x = true
+  | KScalar t PReq, FvOne x => sval_ok t x = true
+  | KScalar t (PDef _), FvOne x => sval_ok t x = true
+  | _, _ => False
+  end.
+
+Definition extract_query_client_full_statement : Prop :=
+  forall sp vals,
+    wf_spec sp = true -> Forall2 (fun f v => q_typed_any (snd f) v) sp vals ->
+    Forall kv_valid (client_fields sp vals) ->
+    extract_query sp (Some (form_encode (client_fields sp vals))) = Ok vals.
+
+Theorem extract_query_client_refuted : ~ extract_query_client_full_statement.
+Proof.
+  intros H.
+  specialize (H [([118], KScalar (TInt false 128) PReq)] [FvOne (VInt 5)] eq_refl).
+  assert (E : extract_query [([118], KScalar (TInt false 128) PReq)]
+                (Some (form_encode (client_fields [([118], KScalar (TInt false 128) PReq)]
+                                                  [FvOne (VInt 5)])))
+              = Err (XBadQuery MUnsupported128)) by (vm_compute; reflexivity).
+  rewrite H in E; [discriminate| |].
+  - constructor; [reflexivity|constructor].
+  - constructor; [split; reflexivity|constructor].
+Qed.
+
+(* K-MPOWS: the media-type grammar allows optional white space before the ';'
+   that introduces a parameter (RFC 9110 5.6.6: *( OWS ";" OWS parameter )) *)
+Definition multipart_boundary_ows_full_statement : Prop :=
+  forall T S pad ps b,
+    str_lower T = S_MULTIPART -> str_lower S = S_FORM_DATA ->
+    forallb (fun c => (c =? 32) || (c =? 9)) pad = true ->
+    Forall cparam_ok ps ->
+    assoc S_BOUNDARY (map (fun p => (str_lower (cp_name p), cp_value p)) ps) = Some b ->
+    parse_boundary (T ++ 47 :: S ++ pad ++ render_params ps) = BOk b.
+
+Theorem multipart_boundary_ows_refuted : ~ multipart_boundary_ows_full_statement.
+Proof.
+  intros H.
+  specialize (H S_MULTIPART S_FORM_DATA [32]
+                [{| cp_spaces := 1; cp_name := S_BOUNDARY; cp_value := [88; 66];
+                    cp_quoted := false; cp_trail := 0 |}] [88; 66] eq_refl eq_refl eq_refl).
+  assert (E : parse_boundary
+                (S_MULTIPART ++ 47 :: S_FORM_DATA ++ [32] ++
+                 render_params [{| cp_spaces := 1; cp_name := S_BOUNDARY; cp_value := [88; 66];
+                                   cp_quoted := false; cp_trail := 0 |}]) = BDecode)
+    by (vm_compute; reflexivity).
+  rewrite H in E; [discriminate| |reflexivity].
+  constructor; [|constructor]. repeat split; try discriminate; reflexivity.
+Qed.
+
+(* ---- registration rules out the missing-field error for path structs ---- *)
+
+Lemma finish_err_field : forall sp filled e,
+  finish sp filled = Err e ->
+  exists name kind, In (name, kind) sp /\ assoc name filled = None /\ e = MMissing name.
+Proof.
+  induction sp as [|[name kind] sp IH]; intros filled e; cbn [finish]; [discriminate|].
+  destruct (assoc name filled) as [v|] eqn:Ha; cbn [bind].
+  - destruct (finish sp filled) as [vs|e0] eqn:Hf; cbn [bind]; [discriminate|].
+    intros [= <-]. destruct (IH _ _ Hf) as (n & k & Hin & Hn & He).
+    exists n, k. split; [right; exact Hin|split; assumption].
+  - destruct (missing name kind) as [v|e0] eqn:Hm; cbn [bind].
+    + destruct (finish sp filled) as [vs|e1] eqn:Hf; cbn [bind]; [discriminate|].
+      intros [= <-]. destruct (IH _ _ Hf) as (n & k & Hin & Hn & He).
+      exists n, k. split; [right; exact Hin|split; assumption].
+    + intros [= <-]. exists name, kind. split; [left; reflexivity|]. split; [exact Ha|].
+      unfold missing in Hm. destruct kind as [t [| |d]| |]; try discriminate; injection Hm as <-; reflexivity.
+Qed.
+
+Lemma from_map_field_not_missing kind v k : from_map_field kind v <> Err (MMissing k).
+Proof.
+  unfold from_map_field, from_map_scalar. destruct kind as [t p| |].
+  - destruct v as [s|l]; cbn [as_value bind].
+    + destruct p, t; destruct (parse_scalar _ s); cbn [bind]; discriminate.
+    + destruct p; discriminate.
+  - destruct v; cbn [as_seq bind]; discriminate.
+  - discriminate.
+Qed.
+
+Lemma visit_map_not_missing raw deser ignore sp :
+  (forall kind r k, deser kind r <> Err (MMissing k)) ->
+  (forall r k, ignore r <> Err (MMissing k)) ->
+  forall entries filled k,
+    visit_map raw deser ignore sp entries filled = Err (MMissing k) -> False.
+Proof.
+  intros Hd Hi. induction entries as [|[k0 r0] rest IH]; intros filled k; cbn [visit_map];
+    [discriminate|].
+  destruct (assoc k0 sp) as [kind|].
+  - destruct (has_key k0 filled); [discriminate|].
+    destruct (deser kind r0) as [v|e] eqn:E; cbn [bind]; [apply IH|].
+    intros [= ->]. exact (Hd _ _ _ E).
+  - destruct (ignore r0) as [u|e] eqn:E; cbn [bind]; [apply IH|].
+    intros [= ->]. exact (Hi _ _ E).
+Qed.
+
+(* when every field of the struct is a variable of the template (what
+   ApiDescription::register checks), "missing field" cannot happen: the
+   condition the assert! of http_extract_path_params was written for is
+   unreachable *)
+Theorem path_registered_no_missing sp ws k :
+  wf_spec sp = true -> names_distinct (map fst ws) = true ->
+  (forall name kind, In (name, kind) sp -> has_key name ws = true) ->
+  extract_path sp ws <> Err (XBadPath (MMissing k)).
+Proof.
+  intros Hwf Hd Hreg H. unfold extract_path in H.
+  destruct (bind_vars ws) as [vars|e0] eqn:Hb; cbn [bind] in H.
+  2:{ rewrite (bind_vars_err _ _ Hb) in H. discriminate. }
+  destruct (bind_vars_members _ _ Hb) as [Hk Hm].
+  assert (Hdv : names_distinct (map fst vars) = true) by (rewrite Hk; exact Hd).
+  destruct (to_btree_spec vars Hdv) as [Hdb Hab].
+  unfold http_extract_path_params in H.
+  destruct (from_map sp (to_btree vars)) as [v|m] eqn:Hfm; [discriminate|].
+  assert (Hm' : m = MMissing k).
+  { destruct m; try discriminate; rewrite ?assert_never_fires in H; congruence. }
+  subst m. unfold from_map, struct_de in Hfm.
+  destruct (visit_map varval from_map_field from_map_ignore sp (to_btree vars) []) as [filled|e1] eqn:Hv;
+    cbn [bind] in Hfm.
+  - destruct (finish_err_field _ _ _ Hfm) as (name & kind & Hin & Hnone & He).
+    injection He as <-.
+    pose proof (visit_map_content _ _ _ _ _ _ _ Hv k) as Hc. cbn [assoc] in Hc.
+    rewrite Hnone, (assoc_distinct _ _ _ Hwf Hin) in Hc.
+    pose proof (Hreg _ _ Hin) as Hhas. rewrite has_key_mem, <- Hk, <- has_key_mem in Hhas.
+    unfold has_key in Hhas. rewrite <- Hab in Hhas.
+    destruct (assoc k (to_btree vars)) as [r|] eqn:Hr; [|discriminate].
+    pose proof (visit_map_is_ok varval from_map_field from_map_ignore sp (to_btree vars) []) as Hok.
+    rewrite Hv in Hok. cbn [is_ok map] in Hok. symmetry in Hok.
+    destruct (entries_okb_assoc _ _ _ _ _ _ _ _ _ Hok (assoc_distinct _ _ _ Hwf Hin) Hr) as [v Hv'].
+    unfold de_opt in Hc. rewrite Hv' in Hc. discriminate.
+  - injection Hfm as ->.
+    eapply (visit_map_not_missing varval from_map_field from_map_ignore sp); [| |exact Hv].
+    + intros kind r k0. apply from_map_field_not_missing.
+    + intros r k0 Hi. unfold from_map_ignore in Hi. destruct r; cbn [as_value bind] in Hi; discriminate.
+Qed.
+
+Lemma unknown_variant_unparsable vs s : mem_str s vs = false -> parse_scalar (TEnum vs) s = None.
+Proof. intros H. cbn [parse_scalar]. rewrite H. reflexivity. Qed.
+
+Lemma out_of_range_unparsable sg bits z :
+  int_in_range sg bits z = false -> parse_scalar (TInt sg bits) (print_int z) = None.
+Proof. intros H. cbn [parse_scalar]. rewrite (parse_int_refuses_out_of_range _ _ _ H). reflexivity. Qed.
